@@ -244,6 +244,86 @@ Proof.
   rewrite E in H. apply (find_sub_drop_suffix PREFIX _ s prefix_nonempty) in H. rewrite H. reflexivity.
 Qed.
 
+(* ---------- the salted reading ---------- *)
+Lemma find_sub_longer_none : forall p q l, find_sub p l = None -> find_sub (p ++ q) l = None.
+Proof.
+  intros p q. induction l as [|c l IH]; intros H.
+  - destruct p as [|a p]; [discriminate|]. reflexivity.
+  - destruct (find_sub_none_cons p c l H) as [H1 H2]. rewrite find_sub_cons.
+    assert (E: starts (p ++ q) (c :: l) = false).
+    { destruct (starts (p ++ q) (c :: l)) eqn:S; [|reflexivity]. exfalso.
+      assert (starts p (c :: l) = true); [|congruence].
+      clear -S. revert S. generalize (c :: l). induction p as [|a p IHp]; intros l0 S; [reflexivity|].
+      destruct l0 as [|x l0]; [discriminate|]. cbn [app starts] in *. apply andb_true_iff in S. destruct S as [S1 S2].
+      rewrite S1. apply IHp. exact S2. }
+    rewrite E, (IH H2). reflexivity.
+Qed.
+Lemma find_sub_longer : forall p q l i, find_sub p l = Some i -> starts (p ++ q) (skipn i l) = true -> find_sub (p ++ q) l = Some i.
+Proof.
+  intros p q. induction l as [|c l IH]; intros i H S.
+  - destruct p as [|a p]; [|discriminate]. cbn in H. injection H as <-. cbn [skipn] in S. destruct q; [reflexivity|discriminate].
+  - rewrite find_sub_cons in H. rewrite find_sub_cons. destruct (starts p (c :: l)) eqn:Sp.
+    + injection H as <-. cbn [skipn] in S. rewrite S. reflexivity.
+    + destruct (find_sub p l) as [j|] eqn:F; [|discriminate]. cbn [option_map] in H. injection H as <-. cbn [skipn] in S.
+      assert (E: starts (p ++ q) (c :: l) = false).
+      { destruct (starts (p ++ q) (c :: l)) eqn:S2; [|reflexivity]. exfalso.
+        assert (starts p (c :: l) = true); [|congruence].
+        clear -S2. revert S2. generalize (c :: l). induction p as [|a p IHp]; intros l0 S2; [reflexivity|].
+        destruct l0 as [|x l0]; [discriminate|]. cbn [app starts] in *. apply andb_true_iff in S2. destruct S2 as [S3 S4].
+        rewrite S3. apply IHp. exact S4. }
+      rewrite E, (IH j eq_refl S). reflexivity.
+Qed.
+Lemma trim_nl_fix : forall x, (match rev x with 10 :: _ => False | _ => True end) -> trim_nl x = x.
+Proof.
+  intros x H. unfold trim_nl. destruct (rev x) as [|c r] eqn:E.
+  - apply (f_equal (@rev N)) in E. rewrite rev_involutive in E. subst. reflexivity.
+  - assert (S: strip_nl_rev (c :: r) = c :: r).
+    { cbn [strip_nl_rev]. destruct c as [|q]; [reflexivity|]. repeat (destruct q as [q|q|]; try reflexivity). contradiction. }
+    rewrite S, <- E. apply rev_involutive.
+Qed.
+
+Lemma parse_salted_payload : forall salt l, find_sub PREFIX l = None -> parse_salted salt l = NotFound.
+Proof.
+  intros salt l H. unfold parse_salted. destruct (trim_nl_prefix l) as [s E].
+  rewrite E in H. apply (find_sub_drop_suffix PREFIX _ s prefix_nonempty) in H.
+  rewrite (find_sub_longer_none PREFIX (salt ++ COLONS) _ H). reflexivity.
+Qed.
+Lemma parse_salted_line : forall tail salt i c,
+  find_sub PREFIX tail = None -> salt_ok salt -> i < 18446744073709551616 -> code_ok c ->
+  parse_salted salt (tail ++ divider_line salt i c) = Found tail i c.
+Proof.
+  intros tail salt i c Ht Hs Hi Hc. unfold parse_salted, divider_line.
+  set (body := PREFIX ++ salt ++ COLONS ++ dec i ++ COLONS ++ decz c).
+  assert (Rb: match rev body with 10 :: _ => False | _ => True end).
+  { unfold body. rewrite !app_assoc. rewrite rev_app_distr.
+    pose proof (rev_last_digit c) as R. destruct (rev (decz c)) as [|x r] eqn:E.
+    - exfalso. apply (f_equal (@length N)) in E. rewrite rev_length in E. destruct c; unfold decz in E; cbn [length] in E;
+        try (pose proof (dec_nonempty (Z.to_N 0)); lia); try (pose proof (dec_nonempty (Z.to_N (Z.pos p))); lia); lia.
+    - cbn [app]. exact R. }
+  assert (T: trim_nl (tail ++ PREFIX ++ salt ++ COLONS ++ dec i ++ COLONS ++ decz c ++ [10]) = tail ++ body).
+  { replace (tail ++ PREFIX ++ salt ++ COLONS ++ dec i ++ COLONS ++ decz c ++ [10]) with ((tail ++ body) ++ [10])
+      by (unfold body; rewrite <- !app_assoc; reflexivity).
+    apply trim_nl_line. rewrite rev_app_distr. destruct (rev body) as [|x r] eqn:E2; [|exact Rb].
+    exfalso. apply (f_equal (@rev N)) in E2. rewrite rev_involutive in E2. unfold body, PREFIX in E2. cbn [app rev] in E2. discriminate. }
+  rewrite T.
+  assert (F0: find_sub PREFIX (tail ++ body) = Some (length tail)).
+  { unfold body. exact (find_sub_app PREFIX tail _ prefix_borderless prefix_nonempty Ht). }
+  assert (Sk: skipn (length tail) (tail ++ body) = body).
+  { rewrite skipn_app, skipn_all, Nat.sub_diag. reflexivity. }
+  rewrite (find_sub_longer PREFIX (salt ++ COLONS) (tail ++ body) (length tail) F0).
+  2:{ rewrite Sk. unfold body. rewrite !app_assoc. rewrite <- (app_assoc PREFIX salt COLONS). rewrite <- !app_assoc.
+      replace (PREFIX ++ salt ++ COLONS ++ dec i ++ COLONS ++ decz c) with ((PREFIX ++ salt ++ COLONS) ++ dec i ++ COLONS ++ decz c)
+        by (rewrite <- !app_assoc; reflexivity).
+      apply starts_app_self. }
+  rewrite Sk.
+  pose proof (parse_divider_line [] salt i c eq_refl Hs Hi Hc) as PD. cbn [app] in PD.
+  assert (Eq: parse_divider body = parse_divider (divider_line salt i c)).
+  { unfold parse_divider. unfold divider_line.
+    replace (PREFIX ++ salt ++ COLONS ++ dec i ++ COLONS ++ decz c ++ [10]) with (body ++ [10]) by (unfold body; rewrite <- !app_assoc; reflexivity).
+    rewrite (trim_nl_line body Rb), (trim_nl_fix body Rb). reflexivity. }
+  rewrite Eq, PD. rewrite firstn_app, firstn_all, Nat.sub_diag. cbn [firstn]. rewrite app_nil_r. reflexivity.
+Qed.
+
 (* ---------- the lines of payload ++ divider line ++ rest ---------- *)
 Fixpoint cut (cur : list N) (p : list N) : list (list N) * list N :=
   match p with
@@ -299,11 +379,11 @@ Proof.
 Qed.
 
 (* ---------- the loop ---------- *)
-Lemma iterate_payload_lines : forall ls rest buffer e, Forall (fun l => find_sub PREFIX l = None) ls ->
-  iterate (ls ++ rest) buffer e = iterate rest (buffer ++ concat ls) e.
+Lemma iterate_payload_lines : forall salt ls rest buffer e, Forall (fun l => find_sub PREFIX l = None) ls ->
+  iterate salt (ls ++ rest) buffer e = iterate salt rest (buffer ++ concat ls) e.
 Proof.
-  induction ls as [|l ls IH]; intros rest buffer e H; [cbn; rewrite app_nil_r; reflexivity|].
-  inversion H; subst. cbn [app iterate]. rewrite (parse_payload_line l H2). rewrite (IH rest (buffer ++ l) e H3).
+  intros salt. induction ls as [|l ls IH]; intros rest buffer e H; [cbn; rewrite app_nil_r; reflexivity|].
+  inversion H; subst. cbn [app iterate]. rewrite (parse_salted_payload salt l H2). rewrite (IH rest (buffer ++ l) e H3).
   cbn [concat]. rewrite <- app_assoc. reflexivity.
 Qed.
 
@@ -311,7 +391,7 @@ Definition payload_ok (pc : list N * Z) : Prop := find_sub PREFIX (fst pc) = Non
 
 Theorem split_ideal : forall salt outs i, salt_ok salt -> Forall payload_ok outs ->
   i + N.of_nat (length outs) <= 18446744073709551616 ->
-  iterate (split_lines (ideal salt i outs)) [] i = Some outs.
+  iterate salt (split_lines (ideal salt i outs)) [] i = Some outs.
 Proof.
   intros salt outs. induction outs as [|[p c] r IH]; intros i Hs Ho Hi; [reflexivity|].
   inversion Ho as [|x y [Hp Hc] Hr]; subst. cbn [fst snd] in Hp, Hc.
@@ -330,10 +410,10 @@ Proof.
   rewrite (split_aux_cut p [] d _ Dn).
   assert (Hp': find_sub PREFIX (rev [] ++ p) = None) by exact Hp.
   destruct (cut_pieces p [] Hp') as [F T].
-  rewrite (iterate_payload_lines _ _ [] i F). cbn [app iterate].
+  rewrite (iterate_payload_lines salt _ _ [] i F). cbn [app iterate].
   assert (Ed: d ++ [10] = divider_line salt i c) by (unfold d, divider_line; rewrite <- !app_assoc; reflexivity).
   rewrite Ed.
-  pose proof (parse_divider_line _ salt i c T Hs ltac:(cbn [length] in Hi; lia) Hc) as PD.
+  pose proof (parse_salted_line _ salt i c T Hs ltac:(cbn [length] in Hi; lia) Hc) as PD.
   unfold byte in *. rewrite PD.
   rewrite N.eqb_refl. change (split_aux [] (ideal salt (i + 1) r)) with (split_lines (ideal salt (i + 1) r)).
   rewrite (IH (i + 1) Hs Hr ltac:(cbn [length] in Hi; lia)).
